@@ -247,9 +247,42 @@ func runC11(p *Program, r *Result) {
 			}
 		}
 		ok := sortCall != nil
+		// sortedAt: the sort has run on every way to block b, or was skipped only because the set
+		// has fewer than two elements (`if len(l) > 1 { sort.Strings(l) }`): such a set is sorted
+		sortedAt := func(b *ssa.BasicBlock) bool {
+			if sortCall.Block() == b || p.feasDominates(sortCall.Block(), b) {
+				return true
+			}
+			// the branch that guards the sort: its other side must be len(labels) <= 1
+			g := sortCall.Block()
+			for g != nil {
+				d := g.Idom()
+				if d == nil {
+					return false
+				}
+				if _, isIf := d.Instrs[len(d.Instrs)-1].(*ssa.If); isIf && len(d.Succs) == 2 && (d == b || d.Dominates(b) || p.feasDominates(d, b)) {
+					for k, su := range d.Succs {
+						if su == g || su.Dominates(g) {
+							other := tb.FactsOnEdge(d, 1-k)
+							if len(other) == 0 {
+								return false
+							}
+							last := other[len(other)-1]
+							kk, isK := intConst(last.Y)
+							small := last.Kind == "cmp" && isK && isLenTerm(last.X) && len(last.X.Args) == 1 && last.X.Args[0].V != nil && sameLabels(last.X.Args[0].V) &&
+								(last.Op == "<=" && kk <= 1 || last.Op == "<" && kk <= 2 || last.Op == "==" && kk <= 1)
+							return small
+						}
+					}
+					return false
+				}
+				g = d
+			}
+			return false
+		}
 		if ok {
 			// the comparison, and every edge on which these labels become the reference
-			if !dominatesInstr(sortCall.(ssa.Instruction), wcall.(ssa.Instruction)) && !p.feasDominates(sortCall.Block(), wcall.Block()) {
+			if !dominatesInstr(sortCall.(ssa.Instruction), wcall.(ssa.Instruction)) && !sortedAt(wcall.Block()) {
 				ok = false
 			}
 			var edges func(ph *ssa.Phi, depth int)
@@ -257,7 +290,7 @@ func runC11(p *Program, r *Result) {
 				for k, e := range ph.Edges {
 					if sameLabels(e) {
 						pb := ph.Block().Preds[k]
-						if !p.feasDominates(sortCall.Block(), pb) {
+						if !sortedAt(pb) {
 							ok = false
 						}
 					} else if p2, isPhi := e.(*ssa.Phi); isPhi && p2 != ph && depth < 2 {
